@@ -155,6 +155,8 @@ theorem feed_gate_validate {E : Env} {s : St} {ty : Nat} {cd : Denom} {cp : Coll
   dsimp only
   split
   · rfl
+  split
+  · rfl
   · rcases hdown with h | h
     · simp [h]
     · split
@@ -211,6 +213,8 @@ theorem liquidate_sound {E : Env} {g : Int} {now : Int} {s s' : St} {keeper owne
       calcCR c1.coll cp.cf c1.prin c1.fees E.P.debtCf (s.price cp.liq) = .ok r ∧ r.m < cp.liqRatio.m ∧
       s'.cdp id = none ∧ (∀ a, s'.dep id a = 0) := by
   unfold liquidate at h
+  split at h
+  · cases h
   split at h
   · cases h
   rename_i id c0 hf
